@@ -314,9 +314,11 @@ impl Visitor for CroVisitor {
     }
 }
 
-const CRO_LR: [f64; 3] = [0.2, 0.5, 0.9];
-const CRO_ALPHA: [u32; 3] = [5, 2, 50];
-const CRO_BETA: [f64; 3] = [0.1, 10.0, 1.0];
+// the parameter points of `hcommon::templates` (point 3 is the degenerate-valid one: two molecules,
+// no initial kinetic energy, empty buffer, loss rate 0, criteria thresholds 0)
+const CRO_LR: [f64; 4] = [0.2, 0.5, 0.9, 0.0];
+const CRO_ALPHA: [u32; 4] = [5, 2, 50, 0];
+const CRO_BETA: [f64; 4] = [0.1, 10.0, 1.0, 0.0];
 
 /// `(run (v k) (i k) (iters n) (seed s) (alpha n) (beta x))`
 fn run_run(args: &[Sx]) -> (String, Vec<(String, String)>) {
@@ -391,17 +393,27 @@ fn mol_str(ke: f64, hit: u64, min: u64, best: &(u64, f64)) -> String {
     list([fx(ke), hit.to_string(), min.to_string(), best.0.to_string(), fx(best.1)])
 }
 
-/// One well-formed reaction case; `mode` steers the energy balance (0 accept, 1 reject, 2 buffer-assisted, 3 random).
-fn reaction_case(g: &mut Gen, kind: &str, mode: u64, twins: bool, unmoved: bool) -> String {
+/// One well-formed reaction case; `mode` steers the energy balance (0 accept, 1 reject, 2 buffer-assisted, 3 random,
+/// 4 the exact threshold: product energy == reactant energy). `twins`: 0 none, 1 two equal individuals, 2 three,
+/// 3 the first reactant has a twin that is not the second reactant.
+fn reaction_case(g: &mut Gen, kind: &str, mode: u64, twins: u64, unmoved: bool) -> String {
     let n = g.rng.range(if kind == "inter" || kind == "synth" { 2 } else { 1 }, 6) as usize;
     let mut pop: Vec<(u64, f64)> = (0..n).map(|_| { let o = g.obj(); g.fresh(o) }).collect();
     let mut kes: Vec<f64> = (0..n).map(|_| g.ke()).collect();
     let i = g.rng.below(n as u64) as usize;
     let mut j = g.rng.below(n as u64) as usize;
     if n > 1 { while j == i { j = g.rng.below(n as u64) as usize; } }
-    if twins && n > 1 {
+    if twins == 3 && n > 2 {
+        // the first reactant has an equal twin elsewhere; the second reactant (if any) is different
+        let k = (0..n).find(|k| *k != i && *k != j).unwrap();
+        pop[k] = pop[i];
+    } else if twins > 0 && n > 1 {
         // two equal individuals (same solution, same objective): distinct molecules
         pop[j] = pop[i];
+        if twins > 1 && n > 2 {
+            let k = (0..n).find(|k| *k != i && *k != j).unwrap();
+            pop[k] = pop[i];
+        }
     }
     let two_r = kind == "inter" || kind == "synth";
     let two_p = kind == "decomp" || kind == "inter";
@@ -412,6 +424,7 @@ fn reaction_case(g: &mut Gen, kind: &str, mode: u64, twins: bool, unmoved: bool)
         0 => tot - g.rng.unit() * (tot.abs() + 1.0) * 0.9,
         1 => tot + 1.0 + g.rng.unit() * 100.0 + if kind == "decomp" { buffer } else { 0.0 },
         2 => { buffer = 10.0 + g.rng.unit() * 100.0; tot + g.rng.unit() * buffer * 0.5 }
+        4 => tot,
         _ => tot + (g.rng.unit() - 0.5) * 20.0,
     };
     // an on-wall collision that did not move the molecule: the product IS the reactant
@@ -419,12 +432,13 @@ fn reaction_case(g: &mut Gen, kind: &str, mode: u64, twins: bool, unmoved: bool)
         if kes[i] == 0.0 { kes[i] = 1.0 + g.rng.unit() * 10.0; }
         vec![pop[i]]
     } else if two_p {
-        let a = target * g.rng.unit();
+        // at the exact threshold both products get half (the halves add up to `tot` without rounding)
+        let a = if mode == 4 { target * 0.5 } else { target * g.rng.unit() };
         vec![g.fresh(a), g.fresh(target - a)]
     } else {
         vec![g.fresh(target)]
     };
-    if !(unmoved && kind == "onwall") && g.rng.chance(1, 10) { kes[i] = 0.0; }
+    if !(unmoved && kind == "onwall") && mode != 4 && g.rng.chance(1, 10) { kes[i] = 0.0; }
     let reactants: Vec<(u64, f64)> = if two_r { vec![pop[i], pop[j]] } else { vec![pop[i]] };
     let mols: Vec<String> = (0..n).map(|k| {
         let hit = g.rng.below(8);
@@ -515,8 +529,11 @@ fn main() {
     let reps = if a.thorough { 4000 } else { 400 };
     for kind in ["onwall", "decomp", "inter", "synth"] {
         for k in 0..reps {
-            let mode = k % 4;
-            let twins = (kind == "inter" || kind == "synth") && k % 7 == 0;
+            // the exact threshold only where the compared energies are single (commutative) additions: the decision
+            // there does not depend on the association order of a longer sum
+            let mode = if k % 25 == 24 && (kind == "onwall" || kind == "decomp") { 4 } else { k % 4 };
+            // equal individuals in the population: the reactant(s) exist twice / three times
+            let twins = if k % 7 == 0 { 1 } else if k % 7 == 3 { 2 + (k / 7) % 2 } else { 0 };
             emit(kind, reaction_case(&mut g, kind, mode, twins, k % 9 == 4));
         }
         for which in 0..12 {
@@ -536,7 +553,7 @@ fn main() {
     }
     drop(emit);
     let seeds = if a.thorough { 8 } else { 2 };
-    for v in 0..3u32 {
+    for v in 0..4u32 {
         for i in 0..4u32 {
             for s in 0..seeds {
                 let iters = if a.thorough { 400 } else { 80 };
